@@ -194,7 +194,7 @@ func C04(c *core.Ctx) {
 
 	// bounded-exhaustive part: every applicable sequence of 4 (thorough: 5) operations over two sessions of different
 	// associations that share their gNB and application filters (see scopeOps), each from the empty state
-	scopeShards, scopeLen := 3, 4
+	scopeShards, scopeLen := 6, 4
 	if c.Thorough() {
 		scopeShards, scopeLen = 14, 5
 	}
